@@ -159,6 +159,8 @@ func c04Prop(t *testing.T) func(c *vs.Case) {
 		pending := func() bool { return s.currentSwitch() != nil || s.currentMaint() != nil }
 		brokenSince, downSince := map[string]time.Time{}, map[string]time.Time{}
 		seenBroken, seenDown := map[string]time.Time{}, map[string]time.Time{}
+		// a server that was restarted in between starts a new outage: the key carries its start count
+		epoch := func(h string) string { return fmt.Sprintf("#%d", s.startNo[h]) }
 		// ---- one manager iteration, judged
 		managerTick := func(p *simProc, mode string, k int) (calls int) {
 			// the delay counts from the end of the first complete iteration in which this manager
@@ -174,11 +176,11 @@ func c04Prop(t *testing.T) func(c *vs.Case) {
 					h := s.w.Hosts[hn]
 					// ground truth at the end of this complete iteration; anything else resets the clock
 					if !h.Up {
-						if seenDown[p.id+hn].IsZero() {
-							seenDown[p.id+hn] = time.Now()
+						if seenDown[p.id+hn+epoch(hn)].IsZero() {
+							seenDown[p.id+hn+epoch(hn)] = time.Now()
 						}
 					} else {
-						delete(seenDown, p.id+hn)
+						delete(seenDown, p.id+hn+epoch(hn))
 					}
 					if h.Up && h.Chan != nil && h.Chan.LastSQLErrno != 0 {
 						if seenBroken[p.id+hn].IsZero() {
@@ -362,8 +364,8 @@ func c04Prop(t *testing.T) func(c *vs.Case) {
 							bad = "is not a registered HA host"
 						case contains1(marked, x):
 							bad = "is marked for recovery"
-						case !seenDown[p.id+x].IsZero() && t0.Sub(seenDown[p.id+x]) > 6*time.Second && !h.Up:
-							bad = fmt.Sprintf("has been down since before this manager's iteration that ended %v before this one began (inactivation delay 5s)", t0.Sub(seenDown[p.id+x]))
+						case !seenDown[p.id+x+epoch(x)].IsZero() && t0.Sub(seenDown[p.id+x+epoch(x)]) > 6*time.Second && !h.Up:
+							bad = fmt.Sprintf("has been down since before this manager's iteration that ended %v before this one began (inactivation delay 5s)", t0.Sub(seenDown[p.id+x+epoch(x)]))
 						case !seenBroken[p.id+x].IsZero() && t0.Sub(seenBroken[p.id+x]) > 6*time.Second && h.Up && h.Chan != nil && h.Chan.LastSQLErrno != 0:
 							bad = fmt.Sprintf("has not been replicating since before this manager's iteration that ended %v before this one began (inactivation delay 5s)", t0.Sub(seenBroken[p.id+x]))
 						case h.Up && hasOwn(h) && !vs.GSubset(h.Executed, mh.Executed):
